@@ -95,15 +95,7 @@ func runC09(c *Ctx) {
 	} else {
 		c.analysed(relName(helper))
 		// the helper is called only while skipVerify
-		for _, ci := range callsToFn(m, helper) {
-			okg := false
-			for _, ec := range condsDominating(ci.Block()) {
-				if isSkip(ec.Cond) && ec.Val {
-					okg = true
-				}
-			}
-			c.check(okg, "flag-transitions", relName(m)+"#helper-call", ci.Pos(), "the enable helper is only called while skipVerify is true", "the enable helper is called without skipVerify being known true")
-		}
+		k.checkEnableHelperOnlyWhileSkipping("flag-transitions")
 		// helper result table
 		vis := k.verifySites(helper)
 		if len(vis) != 1 {
